@@ -13,6 +13,7 @@
 
 #include "llbuild/Basic/ExecutionQueue.h"
 #include "llbuild/Basic/Subprocess.h"
+#include "llbuild/Basic/VerifHooks.h"
 
 #include "llvm/ADT/ArrayRef.h"
 #include "llvm/ADT/SmallString.h"
@@ -152,6 +153,7 @@ struct JobPlan {
 
 struct CasePlan {
   std::string profile;
+  int escalationDelayUs = 0;  // injected at the EscalationThreadStart hook: the SIGKILL thread starts late
   uint64_t seed = 0;
   int index = 0;
   int lanes = 1;  // 0 = serial queue
@@ -230,6 +232,8 @@ static std::set<uint32_t> g_distinct;
 static std::string g_sample;
 
 static void bump(const std::string& k, uint64_t n = 1) { g_sum[k] += n; }
+static std::atomic<int> g_escalationDelayUs{0};   // see queueHook()
+static std::atomic<int> g_escalationDelayed{0};
 static void feature(const std::string& s) { g_distinct.insert((uint32_t)vf::fnv(s)); }
 
 // ------------------------------------------------------------------------------------------------ the running case
@@ -641,6 +645,7 @@ static void analyze(Case& c, int threadsBefore, int threadsAfter, int leftover, 
     if (iCancelCall >= 0 && o.ips < iCancelCall && o.icompl > iCancelCall) {
       bump("children_alive_at_cancel");
       if (p.hang) bump(p.needsKill ? "hanging_children_needing_sigkill_reaped" : "hanging_children_interrupted_and_reaped");
+      if (p.hang && p.needsKill && released) bump(P.early ? "released_children_needing_sigkill_alive_when_the_queue_is_destroyed_after_cancel" : "released_children_needing_sigkill_reaped");
     }
 
     // status
@@ -927,20 +932,25 @@ struct Gen {
     L.kind = 1 + (int)rng.below(5);
     L.cls = "badexe" + num(L.kind);
   }
-  void hangChild(int job, bool allowKillOnly) {
+  void hangChild(int job, bool allowKillOnly, bool forceReleasedKill = false) {
     LaunchPlan& L = newLaunch(job);
     std::string s = "t" + num(L.tag) + ",";
-    unsigned r = (unsigned)rng.below(10);
+    unsigned r = (unsigned)rng.below(forceReleasedKill ? 5 : 10);
+    // half of the children that only SIGKILL can stop first give their lane back over the control channel: after a cancellation
+    // nothing but the escalation timer stands between such a child and a queue destructor that waits for it
+    bool released = allowKillOnly && r < 5 && (forceReleasedKill || rng.chance(1, 2));
     if (allowKillOnly && r < 3) {
       s += "i,";
+      if (released) { s += "r,"; L.control = true; L.wantsRelease = true; }
       s += volumeOps(L, rng.chance(1, 2) ? 10 : 0);
       s += "h";
-      L.hang = true; L.needsKill = true; L.cls = "ignore-sigint-hang";
+      L.hang = true; L.needsKill = true; L.cls = released ? "released-ignore-sigint-hang" : "ignore-sigint-hang";
     } else if (allowKillOnly && r < 5) {
       L.canInt = false;
+      if (released) { s += "r,"; L.control = true; L.wantsRelease = true; }
       s += volumeOps(L, 10);
       s += "h";
-      L.hang = true; L.needsKill = true; L.cls = "not-interruptible-hang";
+      L.hang = true; L.needsKill = true; L.cls = released ? "released-not-interruptible-hang" : "not-interruptible-hang";
     } else if (r < 8) {
       L.canInt = true;
       s += volumeOps(L, rng.chance(1, 3) ? 4096 : (uint64_t)rng.below(50));
@@ -1076,7 +1086,8 @@ static void generate(CasePlan& P, const std::string& profile, uint64_t seed, int
     else { P.cancelMode = 1; P.cancelK = 1 + (int)rng.below(std::max(1, n / 4)); }
     // with hang children every lane may be blocked before K is reached: the canceller also fires when all lanes
     // are occupied by hang children (handled at run time through the K-or-stall rule)
-    P.early = rng.chance(1, 3);
+    P.early = killOnly ? rng.chance(1, 2) : rng.chance(1, 3);
+    if (rng.chance(1, 3)) P.escalationDelayUs = 2000 + (int)rng.below(30000);
     P.submitters = (int)rng.below(2);
     if (profile == "cancelcompl") {
       P.early = false;
@@ -1092,6 +1103,24 @@ static void generate(CasePlan& P, const std::string& profile, uint64_t seed, int
         }
     }
     P.flags = profile + (hangs ? "+hang" : "");
+    return;
+  }
+  if (profile == "releasekill") {
+    // children that gave their lane back and that only SIGKILL can stop; everything else finishes, the canceller fires on the
+    // stall rule, and the queue is destroyed at once: the lanes are idle, so only the escalation timer can end those children
+    static const int ls[] = {1, 2, 3};
+    P.lanes = ls[rng.below(3)];
+    P.alg = (int)rng.below(2);
+    int n = 4 + (int)rng.below(8);
+    g.jobs(n, 30, 3000);
+    int nk = 1 + (int)rng.below(2);
+    for (int i = 0; i < nk; ++i) g.hangChild(g.pickLaunchJob(), true, true);
+    int nv = (int)rng.below(4);
+    for (int i = 0; i < nv; ++i) g.volumeChild(g.pickLaunchJob(), false);
+    P.cancelMode = 1; P.cancelK = 1000000;   // never reached: the stall rule fires once only the hanging children are left
+    P.early = rng.chance(3, 4);
+    if (rng.chance(1, 2)) P.escalationDelayUs = 2000 + (int)rng.below(30000);
+    P.flags = "releasekill+hang";
     return;
   }
   if (profile == "faults") {
@@ -1232,6 +1261,7 @@ static void runCase(const std::string& profile, uint64_t seed, int index, bool t
 
   fprintf(stderr, "@case %d\n", index);
   g_lastEvent.store(now_ns());
+  g_escalationDelayUs.store(P.escalationDelayUs);
   setHangContext(P, "creating the queue");
   g_caseActive.store(1);
 
@@ -1361,9 +1391,17 @@ static void runCase(const std::string& profile, uint64_t seed, int index, bool t
     analyze(c, baselineThreads, threadsAfter, leftover, which, dtorReturned);
   }
   bump("cases");
+  bump("escalation_thread_starts_delayed", (uint64_t)g_escalationDelayed.exchange(0));
   bump("jobs_planned", nJobs);
   if (g_sample.empty() && nLaunches > 2) {
     g_sample = "{\"case\":" + describe(P) + ",\"first_launch\":" + launchJson(c, 0) + "}";
+  }
+}
+
+static void queueHook(void*, llbuild::basic::verif::QueuePoint pt) {
+  if (pt == llbuild::basic::verif::QueuePoint::EscalationThreadStart) {
+    int us = g_escalationDelayUs.load();
+    if (us > 0) { g_escalationDelayed.fetch_add(1); sleep_us(us); }
   }
 }
 
@@ -1384,6 +1422,7 @@ int main(int argc, char** argv) {
   g_argsForReplay = std::string(thorough ? "--thorough" : "") + (a.has("bgmax") ? " --bgmax " + a.s("bgmax") : "");
 
   // process-wide settings, before any thread exists
+  llbuild::basic::verif::setQueueHook(queueHook, nullptr);
   setenv("LLBUILD_TEST", "1", 1);  // shortens the SIGKILL escalation after cancelAllJobs() from 10 s to 1 s
   if (a.has("bgmax")) setenv("LLBUILD_BACKGROUND_TASK_MAX", a.s("bgmax").c_str(), 1);
   setenv("QM_SHARED", "from-environ", 1);
